@@ -367,7 +367,7 @@ def decl_stream(ford, drv, rng, n, rep):
     for i in idxs:
         fl = "1" if lower_of(i) else "0"
         reqs.append(["c18.cut", fl, stmts[i]])
-        reqs.append(["c18.decl", fl, stmts[i]])
+        reqs.append(["c18.decl", fl, "1" if common.probe_init_eq_join() else "0", stmts[i]])
     got = drv.batch(reqs)
     for k, i in enumerate(idxs):
         line, strings, out = rec[i]
@@ -432,8 +432,8 @@ class Hot:
             return "C18-enumerator-expression-drops-file"
         if self.site == "paramstmt" and re.search(r"['\"]", text):
             return "C18-parameter-statement-literal-placeholder"
-        if self.site == "init":
-            # outside literals: `=` at parenthesis level 0 (==, <=, >=, /=)
+        if self.site == "init" and not common.probe_init_eq_join():
+            # outside literals: `=` at parenthesis level 0 (==, <=, >=, /=); only while the code cuts there
             lvl, q = 0, None
             for c in text:
                 if q:
